@@ -218,8 +218,10 @@ Definition into_float_internal (P : enc_params) (s e : Z) : frounded :=
     | (b, _) => FR b (Some NoOp)
     end.
 
-(** FBig<R,2>::to_f32 (mode R) / to_f64 (HalfEven) and Repr<2>::to_f32/to_f64 (HalfEven), finite *)
-Definition fbig2_to_float (P : enc_params) (m : mode) (s e : Z) : frounded :=
+(** FBig<R,2>::to_f32 / to_f64 and Repr<2>::to_f32/to_f64 BEFORE the repair of F38 for base 2 (and still the
+    shape of the route of every other base after convert_base): round to MB+1 bits under the mode,
+    then into_f32/f64_internal (whose encode rounds a subnormal result a second time) *)
+Definition fbig2_to_float_old (P : enc_params) (m : mode) (s e : Z) : frounded :=
   let '(s, e) := normalize 2 s e in
   match repr_round 2 (MB P + 1) m s e with
   | AExact s' e' => into_float_internal P s' e'
@@ -228,6 +230,31 @@ Definition fbig2_to_float (P : enc_params) (m : mode) (s e : Z) : frounded :=
       let '(s'', e'') := normalize 2 s' e' in
       fr_and_then (Some r) (into_float_internal P s'' e'')
   end.
+
+(** Repr::<2>::round_to_subnormal::<R>(min_exponent) (fourth round, repair of F38 for base 2): a finite
+    non-zero s * 2^e below the smallest normal number is rounded ONCE to a multiple of 2^me; a
+    magnitude below a quarter of 2^me is rounded like a quarter (the power 2^shift is not evaluated) *)
+Definition round_to_subnormal (m : mode) (me s e : Z) : Z * option rounding :=
+  if me <=? e then (s * 2 ^ (e - me), None)
+  else
+    let shift := me - e in
+    if shift >? dlen 2 s + 1 then
+      let a := round_fract 2 m 0 (Z.sgn s * 1) 2 in (0 + adj a, Some a)
+    else
+      let '(hi, lo) := split_digits 2 s shift in
+      if lo =? 0 then (hi, None)
+      else let a := round_fract 2 m hi lo shift in (hi + adj a, Some a).
+
+(** Repr::<2>::binary_to_f32::<R> / binary_to_f64::<R> = FBig<R,2>::to_f32 (mode R) / to_f64 (HalfEven) and
+    Repr<2>::to_f32/to_f64 (HalfEven), finite: MB+1 bits from the smallest normal number 2^-(BIAS-1) on,
+    one rounding at the smallest subnormal 2^(-(BIAS-1)-MB) below it; `sign * encode(|man|, me)` *)
+Definition fbig2_to_float (P : enc_params) (m : mode) (s e : Z) : frounded :=
+  let '(s, e) := normalize 2 s e in
+  if (s =? 0) || (e + dlen 2 s >? - (BIAS P - 1)) then fbig2_to_float_old P m s e
+  else
+    let me := - (BIAS P - 1) - MB P in
+    let '(man, fl) := round_to_subnormal m me s e in
+    FR ((if s <? 0 then 2 ^ (W P - 1) else 0) + fst (encode_asis P (Z.abs man) me)) fl.
 
 (** into_f32_internal / into_f64_internal with their debug assertion (the harness profile keeps
     debug assertions on): a significand of more than MB+1 bits panics *)
@@ -300,7 +327,7 @@ Definition fbig_to_float (P : enc_params) (B : Z) (m : mode) (s e : Z) : result 
   if B =? 2 then Ok (fbig2_to_float P m s e)
   else rbind (convert_base_to2 B (MB P + 1) m s e) (and_then_checked P).
 Definition fbig_to_float_old (P : enc_params) (B : Z) (m : mode) (s e : Z) : result frounded :=
-  if B =? 2 then Ok (fbig2_to_float P m s e)
+  if B =? 2 then Ok (fbig2_to_float_old P m s e)
   else rbind (convert_base_to2_old B (MB P + 1) m s e) (and_then_checked P).
 
 (** ---- rational/src/third_party/dashu_float.rs: Repr::to_float (after the repair of F37: the
